@@ -71,8 +71,22 @@ pub fn run(rec: &mut Recorder, w: &mut World, tier: &str, seed: u64) {
         // failure before, between and after rules
         let k = rng.below(nrules + 2);
         let fault = if rng.chance(1, 4) { "err".to_string() } else { format!("fail{}", k) };
-        let how = rng.below(4);
+        // (a store that already holds an unlinkable grouping rule is not used as the *previous* state: its links depend on
+        //  the history that produced it, so "unchanged" has no stable meaning there)
+        let how = rng.below(5);
         let (out, what) = match how {
+            4 => { // the adapter delivers everything, but a delivered grouping rule cannot be linked: the load fails in the
+                   // role-link rebuild, after the store was replaced
+                let other = vec![sv(&["p", "p", "zed", "d1", "read", "allow"]), sv(&["g", "g", "bob", "admin"]), sv(&["g", "g", "zed", "admin"]), sv(&["g", "g", "carol"])];
+                rec.exec(w, "e.fault\t-");
+                let out = rec.exec(w, &format!("e.setadapter\tmemory\t{}\t", enc_lists(&other)));
+                let after = full_state(rec, w, &m, &u);
+                if !out.starts_with("err") { rec.fail("load-fault-not-reported", format!("set_adapter over a store with an unlinkable grouping rule returned {}", out)); }
+                if before != after { rec.fail("failed-load-changed-state", format!("set_adapter failing in the role-link rebuild: {} became {}", before, after)); }
+                rec.count("load-fault:unlinkable-rule-in-new-store");
+                rec.nontrivial_case(&format!("2|unlinkable|{}", before));
+                continue;
+            }
             0 => { rec.exec(w, &format!("e.fault\t{}", fault)); (rec.exec(w, "e.load"), "load_policy") }
             1 => { rec.exec(w, &format!("e.fault\t{}", fault)); (rec.exec(w, &format!("e.loadf\t{}\t{}", enc_list(&sv(&["alice"])), enc_list(&sv(&[""])))), "load_filtered_policy") }
             2 => { // set_adapter with a failing adapter holding other content
